@@ -9,14 +9,16 @@ from concurrent.futures import ThreadPoolExecutor
 
 from lib import gN, gbool, bspec_in, bspec_obs, lcg_bytes, hexs
 
-HEADER = "From CJ Require Import Common.Base C15.Model C15.ModelName C15.Run.\n"
+HEADER = "From CJ Require Import Common.Base C15.Model C15.ModelName C15.ModelObf C15.Run.\n"
 DNSREG = "pkg/registrars/dns-registrar/"
 PKGS = {
     "msgformat": (".", DNSREG + "msgformat", "c15/msgformat_driver_test.go", "TestVerifC15Msgformat"),
     "dns": (".", DNSREG + "dns", "c15/dns_driver_test.go", "TestVerifC15Dns"),
     "requester": (".", DNSREG + "requester", "c15/requester_driver_test.go", "TestVerifC15Requester"),
     "responder": (".", DNSREG + "responder", "c15/responder_driver_test.go", "TestVerifC15Responder"),
+    "transports": (".", "pkg/transports", "c15/transports_driver_test.go", "TestVerifC15Transports"),
 }
+VARIANTS = {"xor": 0, "nil": 1, "ctr": 2, "gcm": 3}
 FMT_OPS = {"rt_req": 0, "rt_resp": 1, "rem_req": 2, "rem_resp": 3, "rt_txt": 4, "dec_txt": 5}
 NAME_ERR = {"": 0, "zero": 1, "labellong": 2, "namelong": 3}
 RD_ERR = {"": 0, "eof": 1, "reserved": 2, "ptrs": 3, "namelong": 4, "trailing": 5}
@@ -252,6 +254,27 @@ def gen_req(ctx):
     return out
 
 
+def gen_obf(ctx):
+    rng, quick = ctx.rng, ctx.tier == "quick"
+    out = []
+    for v in VARIANTS:
+        # every tag length 0..N (fresh key pair and fresh randomness per case)
+        lens = (list(range(0, 6)) + [15, 16, 17, 31, 32, 33, 47, 48, 100]) if quick else list(range(0, 130)) + [255, 256, 1000]
+        reps = (14 if v in ("ctr", "gcm") else 2) if quick else (40 if v in ("ctr", "gcm") else 4)
+        for n in lens:
+            for _ in range(reps if n in (1, 32) else 1):
+                d = rb(rng, n)
+                out.append(Case("obf", "transports", {"op": "obf", "variant": v, "data": bytes(d).hex(), "publen": 32}, (v, bytes(d), 32)))
+        for pl in (0, 31, 33):
+            d = rb(rng, 8)
+            out.append(Case("obf", "transports", {"op": "obf", "variant": v, "data": d.hex(), "publen": pl}, (v, d, pl)))
+        # decoders on arbitrary bytes, lengths around their minimum
+        for n in (list(range(0, 5)) + [30, 31, 32, 33, 46, 47, 48, 49, 64]) if quick else range(0, 70):
+            d = bytes(rb(rng, n))
+            out.append(Case("reveal", "transports", {"op": "reveal", "variant": v, "data": d.hex()}, (v, d)))
+    return out
+
+
 # ------------------------------------------------------------------ running Go
 def run_go(ctx, cases):
     """run every case's Go observation (one `go test` per package, packages in parallel); fills c.res"""
@@ -367,7 +390,37 @@ def post_b32(ctx, c):
     return None
 
 
-TERMS = {"fmt": post_fmt, "name_rt": post_name_rt, "read_name": post_read_name, "trim": post_trim,
+def post_obf(ctx, c):
+    (v, t, pl), r = c.aux, c.res
+    if r.get("panic"):
+        ctx.fail("obf/%s/panic" % v, "obfuscator panicked: %s" % r["panic"], {"fam": "obf", "variant": v, "data": t.hex(), "publen": pl})
+        return None
+    ctx.count(("obf", v, t, pl, r["out"]), kind="obf/%s/%s" % (v, "ok" if r["ok"] else "err"))
+    c1, c2 = bytes.fromhex(r["out"]), bytes.fromhex(r["out1b"])
+    if r["ok"]:
+        if not (r["ok2"] and bytes.fromhex(r["out2"]) == t):
+            key = "obf/%s/%s" % (v, "empty-tag" if len(t) == 0 else "roundtrip")
+            ctx.fail(key, "%s: TryReveal(Obfuscate(tag)) != tag for a %d-byte tag under a fresh key pair (reveal err=%r, got %d bytes)"
+                     % (v, len(t), r["err2"], len(r["out2"]) // 2), {"fam": "obf", "variant": v, "data": t.hex(), "publen": pl,
+                                                                   "encoding": r["out"][:200]})
+        # freshness: the random part of the encoding is the XOR pad / the 32-byte header
+        if v != "nil" and r["ok1b"] and c1 == c2 and (len(t) >= 8 if v == "xor" else True):
+            ctx.fail("obf/%s/fresh" % v, "%s: two encodings of the same %d-byte tag are identical" % (v, len(t)),
+                     {"fam": "obf", "variant": v, "data": t.hex(), "publen": pl})
+    return "CObf %s %s %s %s %s %s %s" % (gN(VARIANTS[v]), hexs(t), gN(pl), gbool(r["ok"]), hexs(c1), gbool(r["ok2"]),
+                                          hexs(bytes.fromhex(r["out2"])))
+
+
+def post_reveal(ctx, c):
+    (v, d), r = c.aux, c.res
+    if r.get("panic"):
+        ctx.fail("reveal/%s/panic" % v, "TryReveal panicked: %s" % r["panic"], {"fam": "reveal", "variant": v, "data": d.hex()})
+        return None
+    ctx.count(("reveal", v, d), kind="reveal/%s/%s" % (v, "ok" if r["ok"] else "err"))
+    return "CReveal %s %s %s %s" % (gN(VARIANTS[v]), hexs(d), gbool(r["ok"]), hexs(bytes.fromhex(r["out"])))
+
+
+TERMS = {"obf": post_obf, "reveal": post_reveal, "fmt": post_fmt, "name_rt": post_name_rt, "read_name": post_read_name, "trim": post_trim,
          "chunks": post_chunks, "b32": post_b32}
 
 
@@ -386,6 +439,13 @@ def replay_cases(ctx):
             elif fam == "read_name":
                 b = bytes.fromhex(c["data"])
                 out.append(Case("read_name", "dns", {"op": "read_name", "data": b.hex(), "pos": c["pos"]}, (b, c["pos"])))
+            elif fam == "obf":
+                t = bytes.fromhex(c["data"])
+                out.append(Case("obf", "transports", {"op": "obf", "variant": c["variant"], "data": t.hex(), "publen": c.get("publen", 32)},
+                                (c["variant"], t, c.get("publen", 32))))
+            elif fam == "reveal":
+                t = bytes.fromhex(c["data"])
+                out.append(Case("reveal", "transports", {"op": "reveal", "variant": c["variant"], "data": t.hex()}, (c["variant"], t)))
             elif fam == "trim":
                 n, s = unhexl(c["labels"]), unhexl(c["suffix"])
                 out.append(Case("trim", "dns", {"op": "trim", "labels": hexl(n), "suffix": hexl(s)}, (n, s)))
@@ -412,7 +472,7 @@ def run(ctx):
     rc, out = ctx.coq_make(["C15/Examples.vo"])
     if rc != 0:
         ctx.broken("examples", "non-vacuity examples (C15/Examples.v) no longer check: " + out[-500:])
-    cases = replay_cases(ctx) + gen_fmt(ctx) + gen_names(ctx) + gen_req(ctx)
+    cases = replay_cases(ctx) + gen_fmt(ctx) + gen_names(ctx) + gen_req(ctx) + gen_obf(ctx)
     if not run_go(ctx, cases):
         return
     # second stage: what the requester sent is parsed by the dns package and answered by the responder
@@ -473,7 +533,9 @@ def run(ctx):
                        "rem_resp/err", "dec_txt/ok", "dec_txt/err",
                        "name_rt/ok", "name_rt/zero", "name_rt/labellong", "name_rt/namelong",
                        "read_name/ok", "read_name/eof", "read_name/reserved", "read_name/ptrs", "read_name/namelong",
-                       "trim/ok", "trim/no", "chunks/63", "b32", "send/ok", "send/err"])
+                       "trim/ok", "trim/no", "chunks/63", "b32", "send/ok", "send/err",
+                       "obf/xor/ok", "obf/xor/err", "obf/nil/ok", "obf/ctr/ok", "obf/ctr/err", "obf/gcm/ok", "obf/gcm/err",
+                       "reveal/xor/ok", "reveal/xor/err", "reveal/ctr/ok", "reveal/ctr/err", "reveal/gcm/err", "reveal/nil/ok"])
     mm = ctx.coq_mismatches("all", HEADER, terms, "chk", shard=max(60, (len(terms) + 11) // 12), need_vo=["C15/Run.vo"])
     if mm:
         ctx.cov["mismatches"] += len(mm)
